@@ -47,7 +47,7 @@ fn gen_query(r: &mut Rng) -> String {
         let nt = 1 + r.below(3);
         for t in 0..nt { if t > 0 { q.push_str(*r.pick(&[" ", "  "])); } q.push_str(&gen_term(r)); }
     }
-    if r.chance(1, 6) { q.push_str(*r.pick(&[" ", " |", " | ", "\\"])); }
+    if r.chance(1, 6) { q.push_str(*r.pick(&[" ", " |", " | ", "\\", "\\ ", "\\  ", "\\ |"])); }
     q
 }
 fn casem_coq(c: CaseMatching) -> &'static str { match c { CaseMatching::Respect => "Respect", CaseMatching::Ignore => "Ignore", CaseMatching::Smart => "Smart" } }
@@ -126,12 +126,12 @@ fn main() {
     let ids: Vec<u64> = match a.only { Some(i) => vec![i], None => (0..a.n).collect() };
     for id in ids {
         let mut r = Rng::for_case(a.seed, id);
-        let text = gen_text(&mut r);
+        let mut text = gen_text(&mut r);
         let exact = r.chance(1, 4);
         let case = *r.pick(&[CaseMatching::Smart, CaseMatching::Smart, CaseMatching::Respect, CaseMatching::Ignore]);
         let algo = *r.pick(&[FuzzyAlgorithm::SkimV1, FuzzyAlgorithm::SkimV2, FuzzyAlgorithm::Clangd]);
         let regex_mode = focus != "C04" && r.chance(1, 8);
-        let query = if regex_mode { r.pick(&["a", "a.c", "^a", "b$", "[ab]+", "(", "a|b", "", "A", "\\w+", "x*", "中"]).to_string() }
+        let query = if regex_mode { r.pick(&["a", "a.c", "^a", "b$", "[ab]+", "(", "a|b", "", "A", "\\w+", "x*", "中", "^", "$", "^$", "a*", "é", "^é$"]).to_string() }
                     else if focus == "C03" { gen_term(&mut r) }
                     else if r.chance(1, 4) && text.chars().count() >= 2 {
                         // terms cut out of the text itself: adjacent, overlapping, nested, out of order
@@ -149,6 +149,13 @@ fn main() {
                         if parts.is_empty() { gen_query(&mut r) } else { parts.join(" ") }
                     }
                     else { gen_query(&mut r) };
+        // short texts built from the query itself: the text is exactly the term's body, or that plus one character; or empty
+        if r.chance(1, 6) {
+            let body: String = query.chars().filter(|c| !" |'^$!\\".contains(*c)).collect();
+            // the query read as plain text: escaped blanks become blanks, sigils and bars go
+            let plain: String = query.replace("\\ ", " ").chars().filter(|c| !"|'^$!\\".contains(*c)).collect();
+            text = match r.below(7) { 5 => plain, 6 => format!("{}{}", plain, r.pick(&TCH)), 0 => String::new(), 1 => body, 2 => format!("{}{}", body, r.pick(&TCH)), 3 => format!("{}{}", r.pick(&TCH), body), _ => body.chars().rev().collect() };
+        }
         // --nth ranges on character boundaries (C08 focus: more often, any order)
         let bounds: Vec<usize> = text.char_indices().map(|(i, _)| i).chain(std::iter::once(text.len())).collect();
         let ranges: Option<Vec<(usize, usize)>> = if r.chance(if focus == "C08" { 2 } else { 1 }, 3) {
